@@ -25,6 +25,9 @@ def page_free_pairs():
                  replace=["mi_page_queue_remove/c_queue_remove_rec", "_mi_segment_page_free"]),
             dict(name="page_retire", entry="h_page_retire", harness="harness/page_free.c", enforce="_mi_page_retire", label="P", functions=["_mi_page_retire", "mi_page_queue_of"], timeout=300, unwind=20, objbits=10, solver="cadical",   # (pq - heap->pages) divides by 24: minisat does not finish, cadical 5 s
                  replace=["_mi_page_free/c_page_free_rec"])]
+def page_abandon_pair():
+    return dict(name="page_abandon", entry="h_page_abandon", harness="harness/page_free.c", enforce="_mi_page_abandon", label="P", functions=["_mi_page_abandon"], timeout=300, unwind=20, objbits=10,
+                replace=["mi_page_queue_remove/c_queue_remove_rec", "_mi_segment_page_abandon"])
 def find_page_pair():
     return dict(name="find_page", entry="h_find_page", harness="harness/find_page.c", enforce="mi_find_page", label="P", functions=["mi_find_page"], timeout=300, unwind=14,
                 replace=["mi_large_huge_page_alloc/c_large_huge_rec", "mi_find_free_page/c_find_free_rec"])
